@@ -164,6 +164,17 @@ func recvOnError(recv *ast.FuncDecl) []int {
 		switch st := st.(type) {
 		case *ast.IfStmt: // `if !isEOF(err) { log... }`
 			callSeq("receiver (error branch)", st, map[string]int{}, func(s string) bool { return isLogCall(s) || s == "isEOF" || s == "svc.cid" })
+			// the logging branch must not leave the error branch: a return (or break/continue/goto) in it
+			// would skip the conn.Close() below for some errors
+			ast.Inspect(st, func(n ast.Node) bool {
+				switch n.(type) {
+				case *ast.ReturnStmt:
+					seq = append(seq, 4)
+				case *ast.BranchStmt:
+					seq = append(seq, 5)
+				}
+				return true
+			})
 		case *ast.ExprStmt:
 			call, ok := st.X.(*ast.CallExpr)
 			if !ok {
